@@ -35,6 +35,11 @@ CHECKS = {
             "sending are unreachable from the application thread, each hand-over is submitted exactly once on every "
             "path, flush lets no task outcome escape and waits per future, submit-after-close raises before queueing. "
             "Does not decide timing or grpc-internal retries.", "4/C09"),
+    "C10": ("decision tables of can_trigger and its overrides, typestate of the fire budget, origin expansion of the single eval site, containment and tagged-result discrimination rules",
+            "Static decision for every condition/expression: limits first, blank = always, truth from the evaluated text, "
+            "failed evaluation = rejected; rejected hits cannot reach record_triggered; the only eval site gets the "
+            "unchanged expression text with f_globals/f_locals of the callback's own frame and is reached by every "
+            "expression consumer; failures are contained as values and discriminated before use.", "4/C10"),
     "C14": ("path-condition/dominance rules over start/shutdown, origin of the restore arguments, step-isolation via escape analysis",
             "Static rules deciding for every start/shutdown history and fault subset: start effects only when not "
             "started, settrace only when tracing is enabled, restore passes exactly the values saved before install "
